@@ -174,21 +174,22 @@ type simEvent struct {
 }
 
 type simNode struct {
-	name     string
-	m        *ml.Memberlist
-	tr       *simTransport
-	mu       sync.Mutex
-	events   []simEvent
-	inside   atomic.Int32
-	overlap  atomic.Int64
-	view     map[string]string // replay of the event log: name -> meta
-	badLog   []string          // event-log / Members() mismatches seen inside callbacks
-	t0       time.Time
-	meta     []byte
-	crashed  bool
-	left     bool
-	maxScore int
-	delGot   int
+	name       string
+	m          *ml.Memberlist
+	tr         *simTransport
+	mu         sync.Mutex
+	events     []simEvent
+	inside     atomic.Int32
+	overlap    atomic.Int64
+	view       map[string]string // replay of the event log: name -> meta
+	badLog     []string          // event-log / Members() mismatches seen inside callbacks
+	t0         time.Time
+	meta       []byte
+	crashed    bool
+	left       bool
+	maxScore   int
+	delGot     int
+	onNodeMeta func() // one-shot hook run inside the NodeMeta callback (interleaving control)
 }
 
 func (n *simNode) enter() {
@@ -236,13 +237,20 @@ func (n *simNode) NotifyConflict(existing, other *ml.Node) {
 	n.events = append(n.events, simEvent{time.Since(n.t0), "conflict", other.Name, ""})
 	n.mu.Unlock()
 }
-func (n *simNode) NodeMeta(limit int) []byte                  { return n.meta }
+func (n *simNode) NodeMeta(limit int) []byte {
+	if f := n.onNodeMeta; f != nil {
+		n.onNodeMeta = nil
+		f()
+	}
+	return n.meta
+}
 func (n *simNode) NotifyMsg(b []byte)                         { n.mu.Lock(); n.delGot++; n.mu.Unlock() }
 func (n *simNode) GetBroadcasts(overhead, limit int) [][]byte { return nil }
 func (n *simNode) LocalState(join bool) []byte                { return nil }
 func (n *simNode) MergeRemoteState(buf []byte, join bool)     {}
 
 type simCfg struct {
+	mixedProto                                                        bool // nodes speak different (compatible) protocol versions
 	probeInterval, probeTimeout, gossipInterval, pushPull, gossipDead time.Duration
 	suspMult, suspMaxMult, retransmit, indirect, awareMax             int
 	tcpPings                                                          bool
@@ -256,7 +264,11 @@ func defaultSimCfg() simCfg {
 }
 
 func (sn *simNet) newNode(i int, c simCfg, t0 time.Time) (*simNode, error) {
-	name := fmt.Sprintf("n%d", i)
+	return sn.newNamedNode(i, fmt.Sprintf("n%d", i), c, t0)
+}
+
+// newNamedNode creates a node at the address slot i under an arbitrary name (address take-over).
+func (sn *simNet) newNamedNode(i int, name string, c simCfg, t0 time.Time) (*simNode, error) {
 	tr := sn.newTransport(fmt.Sprintf("10.0.%d.%d", i/250, i%250+1), 7946)
 	n := &simNode{name: name, tr: tr, view: map[string]string{}, t0: t0, meta: []byte("m0-" + name)}
 	conf := ml.DefaultLANConfig()
@@ -282,6 +294,9 @@ func (sn *simNet) newNode(i int, c simCfg, t0 time.Time) (*simNode, error) {
 	conf.Label = c.label
 	conf.EnableCompression = false
 	conf.Logger = log.New(io.Discard, "", 0)
+	if c.mixedProto {
+		conf.ProtocolVersion = uint8(2 + i%4)
+	}
 	if c.key != nil {
 		kr, err := ml.NewKeyring(nil, c.key)
 		if err != nil {
